@@ -285,6 +285,13 @@ def opt_map(I, c):
     return Some(I.call_value(c.args[1], [o.f[0]]))
 
 
+@model_re(r'as Fn(Mut|Once)?<.*>>::call(_mut|_once)?$')
+def fn_trait_call(I, c):
+    # a closure / fn item received as a generic parameter and called through the Fn traits: arguments arrive as one tuple
+    tup = deref(c.args[1])
+    return I.call_value(c.args[0], list(tup.f) if isinstance(tup, St) else [tup])
+
+
 @model_re(r'^(std::option::)?Option::filter$')
 def opt_filter(I, c):
     o = c.args[0]
@@ -800,6 +807,19 @@ def uint_ops(I, c):
     bad = r < 0 if m == 'sub' else r >= (1 << b)
     if I.fork(bad):
         raise RustPanic('attempt to %s with overflow' % m)
+    return r
+
+
+@model_re(r'^<T as (std::ops::)?Sub(<.*>)?>::sub$')
+def generic_unsigned_sub(I, c):
+    # subtraction on a generic parameter (newton_raphson_iterate<T, F>): every instantiation in the workspace is an unsigned
+    # cosmwasm integer or decimal, whose `Sub` panics on underflow
+    a, x = deref(c.args[0]), deref(c.args[1])
+    if not (isinstance(a, (int, z3.ExprRef)) and isinstance(x, (int, z3.ExprRef))) or isinstance(a, bool):
+        raise Unsupported('generic Sub on non-integer values')
+    r = simp(a - x)
+    if I.fork(r < 0):
+        raise RustPanic('attempt to sub with overflow')
     return r
 
 
